@@ -137,7 +137,7 @@ def run_unit(unit, drv, res, seed, tier):
                                               'p2_iv': (None, 'iv', 'posthis'), 'p3_ivi': (None, 'ivi', 'posthis'), 'p3_ssv': (None, 'sss', 'posthis')}[name]
             arity = len(params) + (1 if flavour in ('this', 'thisopt') else 0)
             full = ([this_kind] if flavour in ('this', 'thisopt') else []) + list(params)
-            reps = 6 if unit[3] == 'quick' else 30
+            reps = 6 if unit[3] == 'quick' else 150
             for nargs in range(0, arity + 3):
                 for rep in range(reps):
                     vals, exprs, vs = [], [], []
